@@ -178,6 +178,18 @@ def entry_points(inst):
     both("SimulatorImaging.via_image_from.grid", "coord",
          lambda mk_, s: aa.Grid2D.from_mask(mask=aa.SimulatorImaging(exposure_time=100.0, add_poisson_noise_to_data=False, noise_seed=1).via_image_from(
              image=aa.Array2D(values=vals, mask=aa.Mask2D.all_false(shape_native=(h, w), pixel_scales=(sy, sx), origin=mk_.origin))).data.mask), _origin)
+    def simulated(mk_, **kw):
+        return aa.SimulatorImaging(exposure_time=100.0, noise_seed=1, **kw).via_image_from(
+            image=aa.Array2D(values=vals, mask=aa.Mask2D.all_false(shape_native=(h, w), pixel_scales=(sy, sx), origin=mk_.origin)))
+
+    both("SimulatorImaging(background_sky).via_image_from.grid", "coord",
+         lambda mk_, s: aa.Grid2D.from_mask(mask=simulated(mk_, background_sky_level=0.5, add_poisson_noise_to_data=False).data.mask), _origin)
+    both("SimulatorImaging(background_sky).via_image_from.noise_map.grid", "coord",
+         lambda mk_, s: aa.Grid2D.from_mask(mask=simulated(mk_, background_sky_level=0.5, add_poisson_noise_to_data=True).noise_map.mask), _origin)
+    both("SimulatorImaging(noise_map_without_poisson).via_image_from.noise_map.grid", "coord",
+         lambda mk_, s: aa.Grid2D.from_mask(mask=simulated(mk_, include_poisson_noise_in_noise_map=False, add_poisson_noise_to_data=False).noise_map.mask), _origin)
+    both("SimulatorImaging(psf).via_image_from.grid", "coord",
+         lambda mk_, s: aa.Grid2D.from_mask(mask=simulated(mk_, psf=aa.Kernel2D.no_mask(values=np.ones((3, 3)), pixel_scales=(sy, sx)), add_poisson_noise_to_data=False).data.mask), _origin)
     both("preprocess.noise_map_with_signal_to_noise_limit_from.grid", "coord",
          lambda mk_, s: aa.Grid2D.from_mask(mask=preprocess.noise_map_with_signal_to_noise_limit_from(
              data=aa.Array2D(values=vals, mask=mk_), noise_map=aa.Array2D(values=noise, mask=mk_), signal_to_noise_limit=1.5).mask), _origin)
